@@ -291,6 +291,21 @@ class WaitCommit(PDict):
     def get_item(self, I, ref, idx):
         return I.ctx.alloc(WaitSlot(ref, idx))
 
+    def iter_items(self, I):
+        """iteration over the keys: the key set of the abstract map is not enumerable - the loop is run for one arbitrary key that has
+        subscribers (a representative); obligations that fail this way are real, but nothing is *proved* about such a loop"""
+        k = FreshInt('someWaitingIndex')
+        subs = self.lookup(I, k)
+        note = 'INCOMPLETE: iteration over the abstract subscriber map'
+        if note not in I.ctx.notes:
+            I.ctx.notes.append(note)
+        g = Or(*[gg for gg, s_ in subs]) if subs else False
+        return [(g, k)] if g is not False else []
+
+    def contains(self, I, idx):
+        subs = self.lookup(I, idx)
+        return Or(*[g for g, s_ in subs]) if subs else False
+
 
 class WaitSlot(object):
     """self.__commandsWaitingCommit[idx] as an lvalue supporting .append"""
